@@ -375,7 +375,9 @@ EXPORT errno_t _qsort_s_chk(void *base, rsize_t nmemb, rsize_t size,
         }
         BND_CHK_PTR_BOUNDS(base, nmemb * size);
     } else {
-        rsize_t basesz = nmemb * size;
+        /* a product that does not fit is larger than any object */
+        rsize_t basesz = (size && nmemb > (rsize_t)-1 / size) ? (rsize_t)-1
+                                                             : nmemb * size;
         if (unlikely(basesz > basebos)) {
             invoke_safe_str_constraint_handler("qsort_s: nmemb*size exceeds sizeof base",
                                                NULL, ESNOSPC);
